@@ -42,10 +42,30 @@ def _strip(v):
     return v
 
 
+class HarnessBug(BaseException):
+    """a programming error on the harness side of a guarded call (must never pass for a refusal)"""
+
+
+_VERIF_DIR = __file__.rsplit("/vlib/", 1)[0] + "/"
+
+
+def _raised_in_harness(e):
+    tb = e.__traceback__
+    last = None
+    while tb is not None:
+        last = tb
+        tb = tb.tb_next
+    return last is not None and last.tb_frame.f_code.co_filename.startswith(_VERIF_DIR)
+
+
 def lib(f, *a, _strip_values=False, **k):
     """Run a library call; 'refused' = raised any Exception."""
     try:
         out = Out(True, f(*a, **k))
+    except (NameError, UnboundLocalError, ImportError) as e:
+        if _raised_in_harness(e):      # a typo in a lambda of ours is a harness error (exit 2), not a refusal
+            raise HarnessBug(repr(e)) from e
+        out = Out(False, exc=e)
     except Exception as e:  # noqa: BLE001 - the property says 'refused with an error'
         out = Out(False, exc=e)
     if RECORDER is not None:
@@ -288,7 +308,8 @@ def expect_unchanged(ra, rows, dtype, what, **info):
 
 # ---------------------------------------------------------------- lazy operands
 
-LAZY_MODES = 5
+LAZY_MODES = 7
+LAZY_CHOICES = [0, 0, 0, 1, 2, 3, 4, 5, 6]     # what sub-checks draw the operand mode from
 
 
 def lazy_ra(rows, dtype, mode):
@@ -319,10 +340,19 @@ def lazy_ra(rows, dtype, mode):
         return build(parent)[idx]
     if mode == 3:      # column-padded parent, column slice
         return build([np.concatenate([junk, r, junk, junk]) for r in rows])[:, 1:-2]
-    # mode 4: row mask over a parent with a junk row first and last
-    parent = [junk] + rows + [junk]
-    mask = np.array([False] + [True] * n + [False])
-    return build(parent)[mask]
+    if mode == 4:      # row mask over a parent with a junk row first and last
+        parent = [junk] + rows + [junk]
+        mask = np.array([False] + [True] * n + [False])
+        return build(parent)[mask]
+    if mode == 5:      # junk interleaved between the cells, column slice with step 2 (compounded column step)
+        def weave(r):
+            out = np.empty(2 * len(r), dtype=dt)
+            out[0::2] = r
+            out[1::2] = junk[0]
+            return out
+        return build([weave(r) for r in rows])[:, ::2]
+    # mode 6: every row stored backwards, column slice with step -1
+    return build([r[::-1] for r in rows])[:, ::-1]
 
 
 # ---------------------------------------------------------------- observables (shared with C19)
